@@ -368,7 +368,9 @@ impl Module for M {
          <= 1000 with w in 1..=40) and wide strokes w in 13..=120 (fixed witnesses of the known finding \
          C17:thick-band:wide-stroke-overcount, 16 octant variants at w = 40, seeded random lines up to 300 px: axis-parallel, \
          diagonal, slopes 0.4..0.7, steep/flat, arbitrary; 120 quick / 3000 thorough); counters thick:w=.. (widths above 12 in \
-         buckets), thick:wide; non-trivial = width >= 2; distinct = distinct op text. \
+         buckets), thick:wide; non-trivial = width >= 2; distinct = distinct op text. thick.skips (skipped Extra steps per side + number \
+         of parallels, port vs model): every (dx,dy) in [-10,10]^2 (thorough [-24,24]^2) x widths 0,1,4,9,21,33,34,60,128 and every wide \
+         stroke above; counters thick:skips, thick:skips:some-step-skipped (= non-trivial). \
          C02/C07/C19 (joins): ALL polylines with 2 and 3 vertices on a 5x5 lattice crossing the axes with irregular spacing \
          (x in -4,-1,0,2,6; y in -5,-2,0,1,3; repeated vertices, reversals and colinear triples included; thorough 6x6) x widths \
          2..=5 (C19: width 1; thorough 2,3,5,7), a seeded sample of 4/5-vertex ones (arbitrary, closed-looking, self-overlapping, \
